@@ -459,7 +459,10 @@ class WrapperMixin(object):
         """
         def add_text(prefix, text):
             # Every line of a multi-line text must be inside the comment.
-            lines = str(text).split("\n")
+            # A tab or form feed would be taken as a place to break
+            # the line, and the rest of the line is not a comment.
+            text = str(text).replace("\t", " ").replace("\f", " ")
+            lines = text.split("\n")
             if len(lines) > 1 and lines[-1] == "":
                 lines.pop()  # remove trailing newline
             output.append(self.doxygen_cont + prefix + lines[0])
